@@ -781,8 +781,10 @@ package s3db
 //@   requires ctx != nil
 //@   requires imp(has(tables, tableName) && tables[tableName] != nil, vtOK(tables[tableName]))
 //@   requires forall i int :: imp(has(tables, tableName) && tables[tableName] != nil, vacShape(vacRoot(tableName), i))
-//@   modifies puts, deletes, lastPutPrefix, lastPutName, lastPutOK, tables[tableName].Tree.Root
+//@   modifies puts, deletes, lastPutPrefix, lastPutName, lastPutOK, tables[tableName].Tree.Root, historyDeletions, historyHandle, historySnapshot
 //@   ensures readonly: imp(has(tables, tableName) && tables[tableName] != nil && old(tables[tableName].Tree.Root.readonly), puts == old(puts) && deletes == old(deletes))
+// C09: if history was deleted, it was deleted for the version the table shows from now on (the nodes of THAT version were protected)
+//@   ensures history-deleted-for-the-shown-version: imp(historyDeletions != old(historyDeletions), historyDeletions == old(historyDeletions) + 1 && int(tables[tableName].Tree.Root) == historyHandle && int(vacRoot(tableName)) == historySnapshot)
 // C09: the rows a statement sees through this table are exactly what they were, whatever the outcome
 //@   ensures rows-unchanged: forall a int :: imp(has(tables, tableName) && tables[tableName] != nil,
 //@       (has(T(vacRoot(tableName)), a) && visRow(T(vacRoot(tableName))[a])) == old(has(T(vacRoot(tableName)), a) && visRow(T(vacRoot(tableName))[a])) &&
